@@ -55,6 +55,21 @@ static int status_of_x(const pv_mlang* L, const unsigned d[16], unsigned coin, b
     int st = pv_api_decode_explicit(in, coin, L->lib, &s);
     pv_w->fail_countdown = 0;
     if (st == POLYSEED_OK) { if (!s) pv_violation("C02/ok-without-seed", "%s: decode_explicit returned OK but wrote no seed%s", L->name_en, arm ? " (allocator refusing its next request)" : ""); else pv_api_free(s); }
+    /* "decoding" is both decoders: a sample of the same strings goes through language auto-detection, half of them with the allocator
+     * refusing one of its next requests; whatever the allocator does, a phrase that does not validate is never accepted, and the status
+     * is the model's (a refused request may turn OK / UNSUPPORTED into MEMORY, nothing else) */
+    if (g_rng && pv_randn(g_rng, 10) == 0) {
+        pv_mdecode md; pv_m_decode(in, coin, NULL, 7, &md);
+        bool arm2 = pv_randn(g_rng, 2);
+        if (arm2) pv_arm_some_request();
+        polyseed_data* a = NULL; int sa = pv_api_decode(in, coin, NULL, &a);
+        bool refused = pv_w->alloc_failed_in_call > 0; pv_w->fail_countdown = 0;
+        PV_COUNT("evaluations", 1);
+        bool fine = sa == md.status || (refused && sa == POLYSEED_ERR_MEMORY && (md.status == POLYSEED_OK || md.status == POLYSEED_ERR_UNSUPPORTED));
+        if (!fine) pv_violation(sa == POLYSEED_OK ? "C02/auto/altered-phrase-accepted" : "C02/auto/status-differs-from-model", "%s: decode('%s', coin %u)%s -> %s, model %s", L->name_en, pv_esc(in), coin, arm2 ? " with the allocator refusing a request" : "", pv_status_name(sa), pv_status_name(md.status));
+        else { PV_COUNT("auto.status_equals_model", 1); if (arm2) PV_COUNT("auto.with_failing_allocator", 1); if (refused && sa != POLYSEED_ERR_MEMORY) PV_COUNT("auto.request_refused_and_verdict_unchanged", 1); }
+        if (sa == POLYSEED_OK) { if (!a) pv_violation("C02/ok-without-seed", "%s: decode returned OK but wrote no seed", L->name_en); else pv_api_free(a); }
+    }
     free(in);
     PV_COUNT("evaluations", 1);
     return st;
